@@ -15,6 +15,13 @@ except Exception:          # pragma: no cover - the tooling interpreter ships nu
     np = None
 
 
+def self_recv(fn, env, te, f):
+    try:
+        return te.ev(f, fn.value, env)
+    except Unknown:
+        return None
+
+
 class _Ret(Exception):
     def __init__(self, v):
         self.v = v
@@ -27,6 +34,7 @@ class TensorEval:
         self.prog, self.cls = prog, cls
         self.seeds = seeds            # normalised text -> value (object ndarray / Q / number)
         self.depth = 0
+        self.summaries = {}           # function name -> callable(args, kwargs): trusted summary of a helper
 
     def run(self, f, bind):
         env = dict(bind)
@@ -39,14 +47,38 @@ class TensorEval:
     def block(self, f, stmts, env):
         for st in stmts:
             if isinstance(st, ast.Expr):
+                c = st.value
+                if isinstance(c, ast.Call) and isinstance(c.func, ast.Attribute) and c.func.attr in ('append', 'extend') and isinstance(c.func.value, ast.Name) \
+                        and isinstance(env.get(c.func.value.id), list) and len(c.args) == 1:
+                    v = self.ev(f, c.args[0], env)
+                    if c.func.attr == 'append':
+                        env[c.func.value.id].append(v)
+                    else:
+                        env[c.func.value.id].extend(v)
                 continue
             if isinstance(st, ast.Return):
                 raise _Ret(self.ev(f, st.value, env) if st.value is not None else None)
+            if isinstance(st, ast.For) and not st.orelse:
+                it = self.ev(f, st.iter, env)
+                if not isinstance(it, (range, list, tuple)) or len(it) > 64:
+                    raise Unknown(f'loop over `{norm(st.iter)[:40]}`')
+                for x in it:
+                    self.bind_target(st.target, x, env)
+                    self.block(f, st.body, env)
+                continue
+            if isinstance(st, ast.Assign) and len(st.targets) == 1 and isinstance(st.targets[0], (ast.Tuple, ast.List)):
+                v = self.ev(f, st.value, env)
+                self.bind_target(st.targets[0], v, env)
+                continue
             if isinstance(st, ast.Assign) and len(st.targets) == 1:
                 t = st.targets[0]
                 if isinstance(t, ast.Subscript) and any(isinstance(n, ast.Compare) for n in ast.walk(t.slice)):
                     continue            # masked repair of degenerate (zero) cells: symbolic cells are generic
                 v = self.ev(f, st.value, env)
+                if isinstance(t, ast.Subscript):
+                    base = self.ev(f, t.value, env)
+                    base[self.index(f, t.slice, env)] = v
+                    continue
                 if isinstance(t, ast.Name):
                     env[t.id] = v
                     continue
@@ -60,8 +92,31 @@ class TensorEval:
                 env[k] = self.binop(st.op, cur, self.ev(f, st.value, env))
                 continue
             if isinstance(st, ast.If):
-                continue                # warnings / logging about degenerate inputs
+                try:
+                    c = self.ev(f, st.test, env)
+                except Unknown:
+                    continue            # warnings / logging about degenerate inputs (tests on symbolic cells)
+                if isinstance(c, (bool, int)) or (np is not None and isinstance(c, np.bool_)):
+                    self.block(f, st.body if c else st.orelse, env)
+                continue
+            if isinstance(st, ast.AugAssign) and isinstance(st.target, ast.Subscript):
+                base = self.ev(f, st.target.value, env)
+                i = self.index(f, st.target.slice, env)
+                base[i] = self.binop(st.op, base[i], self.ev(f, st.value, env))
+                continue
             raise Unknown(f'statement `{norm(st)[:50]}`')
+
+    def bind_target(self, t, v, env):
+        if isinstance(t, ast.Name):
+            env[t.id] = v
+        elif isinstance(t, (ast.Tuple, ast.List)):
+            vs = list(v) if isinstance(v, (list, tuple)) or (np is not None and isinstance(v, np.ndarray)) else None
+            if vs is None or len(vs) != len(t.elts):
+                raise Unknown('unpacking')
+            for t_, v_ in zip(t.elts, vs):
+                self.bind_target(t_, v_, env)
+        else:
+            raise Unknown('loop / unpack target')
 
     def binop(self, op, l, r):
         if isinstance(op, ast.Add):
@@ -73,8 +128,10 @@ class TensorEval:
         if isinstance(op, ast.Div):
             return l / r
         if isinstance(op, ast.Pow):
-            if isinstance(r, int):
-                return l ** r
+            if isinstance(r, (int, float)):
+                if isinstance(r, float) and r != int(r) and isinstance(l, np.ndarray):
+                    return np.frompyfunc(lambda q: q ** r, 1, 1)(l)
+                return l ** (int(r) if isinstance(r, float) and r == int(r) else r)
             raise Unknown('power')
         if isinstance(op, ast.MatMult):
             return np.matmul(l, r) if False else (_ for _ in ()).throw(Unknown('matrix product'))
@@ -105,10 +162,19 @@ class TensorEval:
             raise Unknown(f'name {e.id}')
         if isinstance(e, ast.Tuple):
             return tuple(self.ev(f, x, env) for x in e.elts)
+        if isinstance(e, ast.List):
+            return [self.ev(f, x, env) for x in e.elts]
         if isinstance(e, ast.UnaryOp) and isinstance(e.op, ast.USub):
             return -self.ev(f, e.operand, env)
         if isinstance(e, ast.BinOp):
             return self.binop(e.op, self.ev(f, e.left, env), self.ev(f, e.right, env))
+        if isinstance(e, ast.Compare) and len(e.ops) == 1:
+            import operator
+            l, r = self.ev(f, e.left, env), self.ev(f, e.comparators[0], env)
+            ops = {ast.Eq: operator.eq, ast.NotEq: operator.ne, ast.Lt: operator.lt, ast.LtE: operator.le, ast.Gt: operator.gt, ast.GtE: operator.ge}
+            if type(e.ops[0]) in ops and isinstance(l, (int, float)) and isinstance(r, (int, float)):
+                return ops[type(e.ops[0])](l, r)
+            raise Unknown('comparison of symbolic values')
         if isinstance(e, ast.Attribute):
             if e.attr == 'T':
                 return self.ev(f, e.value, env).T
@@ -134,7 +200,8 @@ class TensorEval:
     def call(self, f, e, env):
         fn = e.func
         name = norm(fn).split('.')[-1]
-        kw = {k.arg: self.ev(f, k.value, env) for k in e.keywords if k.arg}
+        kw = {k.arg: self.ev(f, k.value, env) for k in e.keywords if k.arg and k.arg != 'dtype'}
+        dtype_txt = next((norm(k.value) for k in e.keywords if k.arg == 'dtype'), None)
         np_call = isinstance(fn, ast.Attribute) and norm(fn.value) in ('_np', 'np', 'numpy')
         if isinstance(fn, ast.Attribute) and norm(fn.value) == 'self' and self.cls is not None:
             g = self.prog.resolve_method(self.cls, fn.attr)
@@ -150,7 +217,48 @@ class TensorEval:
                 return self.run(g, bind)
             finally:
                 self.depth -= 1
+        if name in self.summaries and (isinstance(fn, ast.Name) or (isinstance(fn, ast.Attribute) and isinstance(fn.value, ast.Name) and fn.value.id not in env)):
+            return self.summaries[name]([self.ev(f, a, env) for a in e.args], kw)
         args = [self.ev(f, a, env) for a in e.args]
+        if isinstance(fn, ast.Name) and fn.id == 'range' and all(isinstance(a, int) for a in args):
+            return range(*args)
+        if isinstance(fn, ast.Name) and fn.id == 'len' and len(args) == 1:
+            return len(args[0])
+        if name == 'sqrt' and len(args) == 1:
+            a = args[0]
+            return np.frompyfunc(lambda q: q.sqrt(), 1, 1)(a) if isinstance(a, np.ndarray) else Q.lift(a).sqrt()
+        if not np_call and isinstance(fn, (ast.Name, ast.Attribute)) and not (isinstance(fn, ast.Attribute) and isinstance(self_recv(fn, env, self, f), np.ndarray)):
+            r = self.prog.resolve(f.mod, fn) if self.prog is not None else None
+            if r and r[0] == 'func' and r[1].mod.name.startswith('scared.') and self.depth < 4:
+                g = r[1]
+                bind = {}
+                a_ = g.node.args
+                ps = [x.arg for x in a_.posonlyargs + a_.args]
+                defaults = dict(zip(ps[len(ps) - len(a_.defaults):], a_.defaults)) if a_.defaults else {}
+                for p_, v_ in zip(ps, args):
+                    bind[p_] = v_
+                bind.update(kw)
+                for p_ in ps:
+                    if p_ not in bind and p_ in defaults:
+                        bind[p_] = self.ev(g, defaults[p_], {})
+                self.depth += 1
+                try:
+                    return self.run(g, bind)
+                finally:
+                    self.depth -= 1
+        if isinstance(fn, ast.Name) and fn.id in ('list', 'tuple') and len(args) == 1:
+            return list(args[0]) if fn.id == 'list' else tuple(args[0])
+        if isinstance(fn, ast.Name) and fn.id in ('int', 'min', 'max', 'abs') and args and all(isinstance(a, (int, float)) for a in args):
+            return {'int': int, 'min': min, 'max': max, 'abs': abs}[fn.id](*args)
+        if np_call and name in ('zeros', 'ones') and args:
+            if dtype_txt is not None and dtype_txt.strip('\'"').split('.')[-1] in ('int', 'int64', 'int32', 'intp'):
+                return getattr(np, name)(args[0], dtype=int)
+            out = np.empty(args[0], dtype=object)
+            out[...] = Q.const(0 if name == 'zeros' else 1)
+            return out
+        if np_call and name in ('cumsum', 'roll', 'flip', 'concatenate', 'diff', 'arange') and args:
+            kw2 = {k: v for k, v in kw.items() if k in ('axis', 'shift', 'n')}
+            return getattr(np, name)(*args, **kw2)
         recv = None if np_call or not isinstance(fn, ast.Attribute) else self.ev(f, fn.value, env)
         a0 = recv if recv is not None else (args[0] if args else None)
         rest = args if recv is not None else args[1:]
@@ -162,6 +270,8 @@ class TensorEval:
                 ax = kw.get('axis', rest[0] if rest else None)
                 n = a0.size if ax is None else a0.shape[ax]
                 return a0.sum(axis=ax, keepdims=bool(kw.get('keepdims', False))) / n
+            if name in ('cumsum', 'cumprod') :
+                return getattr(a0, name)(axis=kw.get('axis', rest[0] if rest else None))
             if name == 'swapaxes':
                 return a0.swapaxes(*(rest[:2] if rest else (kw['axis1'], kw['axis2'])))
             if name == 'moveaxis':
